@@ -130,8 +130,8 @@ static const decoder_t* find_decoder(const char* name) {
 // Plain build: linked with -Wl,--wrap=malloc,--wrap=calloc,--wrap=realloc,
 // --wrap=free; any allocator call while g_in_call is set is counted.
 
-static volatile int g_in_call = 0;
-static volatile long g_allocs_in_call = 0;
+static __thread volatile int g_in_call = 0;
+static __thread volatile long g_allocs_in_call = 0;
 
 #ifdef WRAP_ALLOC
 void* __real_malloc(size_t);
@@ -158,9 +158,34 @@ void __wrap_free(void* p) {
 
 // ------------------------------------------------------------------ utils
 
-static FILE* g_ev = NULL;
-static long g_job_id = -1;
-static const char* g_phase = "";
+static __thread FILE* g_ev = NULL;
+static __thread long g_job_id = -1;
+static __thread const char* g_phase = "";
+
+// ---- pair mode: two jobs on two objects in two threads, either handing a
+// baton over before every Wuffs call (deterministic interleaving) or running
+// freely (real concurrency, for the TSan build).
+#include <pthread.h>
+static pthread_mutex_t g_mu = PTHREAD_MUTEX_INITIALIZER;
+static pthread_cond_t g_cv = PTHREAD_COND_INITIALIZER;
+static int g_turn = -1;          // -1: no baton
+static int g_alive[2] = {0, 0};
+static __thread int g_tid = -1;
+
+static void baton_yield(void) {
+  if (g_tid < 0) return;
+  pthread_mutex_lock(&g_mu);
+  if (g_turn >= 0) {
+    int other = 1 - g_tid;
+    if (g_alive[other]) {
+      g_turn = other;
+      pthread_cond_broadcast(&g_cv);
+      while (g_turn != g_tid && g_alive[other]) pthread_cond_wait(&g_cv, &g_mu);
+      g_turn = g_tid;
+    }
+  }
+  pthread_mutex_unlock(&g_mu);
+}
 
 static uint64_t fnv(const uint8_t* p, size_t n) {
   uint64_t h = 1469598103934665603ULL;
@@ -268,6 +293,7 @@ typedef struct {
   long maxcalls;
   long budget_ms;
   long skip;           // leading bytes of the input file that are not part of the stream
+  char prior[512];     // decode this file first on the same object memory, then re-initialize (C09)
   char quirks[256];
 } job_t;
 
@@ -326,6 +352,7 @@ static int parse_job(char* line, job_t* j) {
     else if (!strcmp(k, "maxcalls")) j->maxcalls = atol(v);
     else if (!strcmp(k, "budget_ms")) j->budget_ms = atol(v);
     else if (!strcmp(k, "skip")) j->skip = atol(v);
+    else if (!strcmp(k, "prior")) snprintf(j->prior, sizeof j->prior, "%s", v);
     else if (!strcmp(k, "quirks")) snprintf(j->quirks, sizeof j->quirks, "%s", v);
   }
   return j->id >= 0 && j->dec[0];
@@ -446,6 +473,7 @@ typedef struct {
 } snap_t;
 
 static void snap_before(snap_t* sn, const wuffs_base__io_buffer* src, const wuffs_base__io_buffer* dst) {
+  baton_yield();
   memset(sn, 0, sizeof *sn);
   if (src) {
     sn->sri0 = src->meta.ri;
@@ -741,6 +769,7 @@ static void run_hasher(const job_t* j, const decoder_t* d, void* obj, const uint
     uint8_t* piece = (uint8_t*)malloc(k ? k : 1);
     if (k) memcpy(piece, in + off, k);
     uint64_t h0 = fnv(piece, k);
+    baton_yield();
     g_phase = "update";
     g_allocs_in_call = 0;
     g_in_call = 1;
@@ -991,6 +1020,82 @@ static void run_token(const job_t* j, const decoder_t* d, void* obj, const uint8
 
 // --------------------------------------------------------------------- main
 
+// Calls every pure method of the generic interface and reports whether the
+// object's bytes changed (C10: a pure method leaves the receiver bit-for-bit
+// unchanged).
+static void probe_pure(const decoder_t* d, uint8_t* obj, size_t sz, const char* when) {
+  uint8_t* snap = (uint8_t*)malloc(sz);
+  memcpy(snap, obj, sz);
+  void* h = d->upcast(obj);
+  unsigned long long acc = 0;
+  int ncalls = 0;
+  g_in_call = 1;
+  g_allocs_in_call = 0;
+  switch (d->kind) {
+    case K_XFORM: {
+      wuffs_base__io_transformer* t = (wuffs_base__io_transformer*)h;
+      acc += wuffs_base__io_transformer__get_quirk(t, 1);
+      acc += wuffs_base__io_transformer__workbuf_len(t).min_incl;
+      wuffs_base__optional_u63 o = wuffs_base__io_transformer__dst_history_retain_length(t);
+      acc += wuffs_base__optional_u63__value_or(&o, 7);
+      ncalls = 3;
+      break;
+    }
+    case K_IMAGE: {
+      wuffs_base__image_decoder* t = (wuffs_base__image_decoder*)h;
+      acc += wuffs_base__image_decoder__get_quirk(t, 1);
+      acc += wuffs_base__image_decoder__workbuf_len(t).max_incl;
+      acc += wuffs_base__image_decoder__num_decoded_frames(t);
+      acc += wuffs_base__image_decoder__num_decoded_frame_configs(t);
+      acc += wuffs_base__image_decoder__num_animation_loops(t);
+      acc += wuffs_base__image_decoder__frame_dirty_rect(t).max_excl_x;
+      ncalls = 6;
+      break;
+    }
+    case K_TOKEN: {
+      wuffs_base__token_decoder* t = (wuffs_base__token_decoder*)h;
+      acc += wuffs_base__token_decoder__get_quirk(t, 1);
+      acc += wuffs_base__token_decoder__workbuf_len(t).max_incl;
+      ncalls = 2;
+      break;
+    }
+    case K_H32:
+      acc += wuffs_base__hasher_u32__checksum_u32((wuffs_base__hasher_u32*)h);
+      acc += wuffs_base__hasher_u32__get_quirk((wuffs_base__hasher_u32*)h, 1);
+      ncalls = 2;
+      break;
+    case K_H64:
+      acc += wuffs_base__hasher_u64__checksum_u64((wuffs_base__hasher_u64*)h);
+      acc += wuffs_base__hasher_u64__get_quirk((wuffs_base__hasher_u64*)h, 1);
+      ncalls = 2;
+      break;
+    case K_H256: {
+      wuffs_base__bitvec256 c = wuffs_base__hasher_bitvec256__checksum_bitvec256((wuffs_base__hasher_bitvec256*)h);
+      acc += c.elements_u64[0];
+      acc += wuffs_base__hasher_bitvec256__get_quirk((wuffs_base__hasher_bitvec256*)h, 1);
+      ncalls = 2;
+      break;
+    }
+  }
+  g_in_call = 0;
+  bool chg = memcmp(snap, obj, sz) != 0;
+  fprintf(g_ev, "{\"j\":%ld,\"k\":\"pure\",\"when\":\"%s\",\"ncalls\":%d,\"objchg\":%s,\"al\":%ld,\"acc\":\"%llx\"}\n", g_job_id, when, ncalls,
+          chg ? "true" : "false", (long)g_allocs_in_call, acc);
+  free(snap);
+}
+
+static void run_kind(const job_t* j, const decoder_t* d, uint8_t* obj, const uint8_t* in, size_t n, const uint8_t* oracle, size_t on,
+                     bool have_oracle) {
+  switch (d->kind) {
+    case K_XFORM: run_xform(j, d, obj, in, n, oracle, on, have_oracle); break;
+    case K_H32:
+    case K_H64:
+    case K_H256: run_hasher(j, d, obj, in, n); break;
+    case K_IMAGE: run_image(j, d, obj, in, n); break;
+    case K_TOKEN: run_token(j, d, obj, in, n); break;
+  }
+}
+
 static void run_job(const job_t* j) {
   const decoder_t* d = find_decoder(j->dec);
   g_job_id = j->id;
@@ -1021,33 +1126,78 @@ static void run_job(const job_t* j) {
   uint8_t* obj = (uint8_t*)malloc(sz);
   int pf = j->init == 1 ? 0 : j->prefill;
   memset(obj, pf, sz);
+  if (g_tid < 0) arm_budget(j->budget_ms);
+  if (j->prior[0]) {
+    // decode another file first on this very memory (events discarded), then
+    // re-initialize below WITHOUT refilling the memory
+    size_t pn = 0;
+    uint8_t* pin = read_file(j->prior, &pn);
+    if (pin) {
+      wuffs_base__status pst = d->init(obj, sz, WUFFS_VERSION, WUFFS_INITIALIZE__DEFAULT_OPTIONS);
+      if (pst.repr == NULL) {
+        FILE* keep = g_ev;
+        FILE* nul = fopen("/dev/null", "w");
+        if (nul) {
+          job_t pj = *j;
+          pj.out[0] = 0;
+          pj.oracle[0] = 0;
+          pj.init = 0;
+          pj.maxcalls = 5000;
+          g_ev = nul;
+          run_kind(&pj, d, obj, pin, pn, NULL, 0, false);
+          g_ev = keep;
+          fclose(nul);
+        }
+      }
+      free(pin);
+    }
+  }
   g_phase = "initialize";
-  arm_budget(j->budget_ms);
   g_allocs_in_call = 0;
   g_in_call = 1;
   wuffs_base__status ist = d->init(obj, sz, WUFFS_VERSION, init_opts(j->init));
   g_in_call = 0;
   emit_begin(j, d, n, ist);
   if (ist.repr == NULL) {
-    switch (d->kind) {
-      case K_XFORM: run_xform(j, d, obj, in, n, oracle, on, have_oracle); break;
-      case K_H32:
-      case K_H64:
-      case K_H256: run_hasher(j, d, obj, in, n); break;
-      case K_IMAGE: run_image(j, d, obj, in, n); break;
-      case K_TOKEN: run_token(j, d, obj, in, n); break;
-    }
+    probe_pure(d, obj, sz, "fresh");
+    run_kind(j, d, obj, in, n, oracle, on, have_oracle);
+    probe_pure(d, obj, sz, "after");
   } else {
     fprintf(g_ev, "{\"j\":%ld,\"k\":\"end\",\"stop\":\"init_failed\",\"calls\":0,\"st\":", j->id);
     json_str(g_ev, ist.repr);
     fprintf(g_ev, ",\"cls\":\"%s\",\"out_total\":0,\"out_hash\":\"\",\"in_total\":0,\"n\":%zu,\"have_oracle\":false,\"oracle_n\":0,\"pfx\":true}\n",
             cls_of(ist.repr), n);
   }
-  arm_budget(0);
+  if (g_tid < 0) arm_budget(0);
   free(obj);
   free(oracle);
   free(in0);
   fflush(g_ev);
+}
+
+typedef struct {
+  job_t job;
+  int tid;
+  char* buf;
+  size_t len;
+} pair_arg_t;
+
+static void* pair_thread(void* p) {
+  pair_arg_t* a = (pair_arg_t*)p;
+  g_tid = a->tid;
+  g_ev = open_memstream(&a->buf, &a->len);
+  pthread_mutex_lock(&g_mu);
+  while (g_turn >= 0 && g_turn != g_tid && g_alive[1 - g_tid]) pthread_cond_wait(&g_cv, &g_mu);
+  pthread_mutex_unlock(&g_mu);
+  fprintf(g_ev, "{\"j\":%ld,\"k\":\"start\"}\n", a->job.id);
+  run_job(&a->job);
+  fclose(g_ev);
+  pthread_mutex_lock(&g_mu);
+  g_alive[g_tid] = 0;
+  if (g_turn >= 0) g_turn = 1 - g_tid;
+  pthread_cond_broadcast(&g_cv);
+  pthread_mutex_unlock(&g_mu);
+  return NULL;
 }
 
 int main(int argc, char** argv) {
@@ -1056,15 +1206,45 @@ int main(int argc, char** argv) {
     return 2;
   }
   FILE* jf = fopen(argv[1], "r");
-  g_ev = fopen(argv[2], "a");
-  if (!jf || !g_ev) {
+  FILE* ev = fopen(argv[2], "a");
+  if (!jf || !ev) {
     fprintf(stderr, "cannot open files\n");
     return 2;
   }
+  g_ev = ev;
   signal(SIGVTALRM, on_timeout);
-  static char line[8192];
+  static char line[16384];
   while (fgets(line, sizeof line, jf)) {
     if (line[0] == '#' || line[0] == '\n') continue;
+    if (!strncmp(line, "pair ", 5)) {
+      // pair baton|free <job A> || <job B>
+      int baton = !strncmp(line + 5, "baton", 5);
+      char* sep = strstr(line, "||");
+      if (!sep) continue;
+      *sep = 0;
+      pair_arg_t a[2];
+      memset(a, 0, sizeof a);
+      char* first = strchr(line + 5, ' ');
+      if (!first || !parse_job(first, &a[0].job) || !parse_job(sep + 2, &a[1].job)) continue;
+      a[0].tid = 0;
+      a[1].tid = 1;
+      g_alive[0] = g_alive[1] = 1;
+      g_turn = baton ? 0 : -1;
+      pthread_t th[2];
+      pthread_create(&th[0], NULL, pair_thread, &a[0]);
+      pthread_create(&th[1], NULL, pair_thread, &a[1]);
+      pthread_join(th[0], NULL);
+      pthread_join(th[1], NULL);
+      g_turn = -1;
+      for (int i = 0; i < 2; i++) {
+        if (a[i].buf) {
+          fwrite(a[i].buf, 1, a[i].len, ev);
+          free(a[i].buf);
+        }
+      }
+      fflush(ev);
+      continue;
+    }
     job_t j;
     if (!parse_job(line, &j)) continue;
     // announce the job first: if a sanitizer aborts the process the runner
@@ -1074,6 +1254,6 @@ int main(int argc, char** argv) {
     run_job(&j);
   }
   fclose(jf);
-  fclose(g_ev);
+  fclose(ev);
   return 0;
 }
